@@ -42,3 +42,35 @@ def crlf_variant(case):
     c['callspans'] = [[nm, mv(a), mv(b)] for (nm, a, b) in case['callspans']]
     c['kind'] = case.get('kind', 'sem') + '+crlf'
     return c
+
+
+def pack(case):
+    """JSON-able copy of a generated case (stored in the replay file so that a replay can re-judge it)"""
+    import json
+    return json.loads(json.dumps({k: v for k, v in case.items() if k not in ('literal_markup',)}, default=list))
+
+def unpack(d):
+    """restore what JSON loses: one dict object per macro definition (calls refer to their definition by identity)"""
+    import json
+    c = dict(d)
+    pool = {}
+    def fix(n):
+        if isinstance(n, dict):
+            if 'm' in n and isinstance(n['m'], dict):
+                key = json.dumps(n['m'], sort_keys=True)
+                n['m'] = pool.setdefault(key, n['m'])
+            for k, v in list(n.items()):
+                if k != 'm':
+                    fix(v)
+        elif isinstance(n, list):
+            for x in n:
+                fix(x)
+    if 'ast' in c:
+        fix(c['ast'])
+    for k in ('spans', 'callspans'):
+        if k in c and c[k] is not None:
+            c[k] = [tuple(x) if k == 'spans' else list(x) for x in c[k]]
+    return c
+
+def run_one(c):
+    return t2t.run_case({k: v for k, v in c.items() if k not in ('ast', 'words', 'spans', 'callspans')})
